@@ -49,6 +49,8 @@ pub fn gen_dict_program(t: &mut Tape) -> DictProgram {
     let narr = 1 + t.weighted(&[4, 3, 1]);
     let mut nkeys_of = vec![0usize; narr];
     let mut all_str = vec![true; narr];
+    // (key, value) assignments of the dictionary part of each array, in order
+    let mut assigned: Vec<Vec<(String, String)>> = vec![Vec::new(); narr];
     for a in 0..narr {
         // key family: the plain pool; keys that collide under truncation,
         // case folding or trimming; or a big dictionary
@@ -107,6 +109,7 @@ pub fn gen_dict_program(t: &mut Tape) -> DictProgram {
                 0 => src.push_str(&format!("Let {} at {} be {}\n", ARR[a], key, v)),
                 _ => src.push_str(&format!("Put {} into {} at {}\n", v, ARR[a], key)),
             }
+            assigned[a].push((key.clone(), v.clone()));
         }
         nkeys_of[a] = used.len();
         // some positional elements too
@@ -157,6 +160,7 @@ pub fn gen_dict_program(t: &mut Tape) -> DictProgram {
             1, // 13 join in place, then say
             1, // 14 undefined name (error names a variable)
             if has_dive { 4 } else { 0 }, // 15 deep recursion
+            3, // 16 an equal dictionary built independently (other insertion order), compared
         ];
         match t.weighted(&w) {
             0 => {
@@ -257,6 +261,29 @@ pub fn gen_dict_program(t: &mut Tape) -> DictProgram {
                     src.push_str(&format!("Say Climb taking {}\n", depth));
                 }
             }
+            16 => {
+                features.push("equal dictionaries built independently");
+                // same entries, other insertion order: a different table
+                // (own hasher key, own layout) with equal contents
+                let mut entries = assigned[a].clone();
+                match t.draw(3) {
+                    0 => entries.reverse(),
+                    1 => {
+                        let k = entries.len() / 2;
+                        entries.rotate_left(k);
+                    }
+                    _ => entries.sort(),
+                }
+                src.push_str("Put mysterious into Echo\n");
+                for (k, v) in &entries {
+                    src.push_str(&format!("Let Echo at {} be {}\n", k, v));
+                }
+                match t.draw(3) {
+                    0 => src.push_str(&format!("If Echo is {}\nSay \"equal\"\nElse\nSay \"unequal\"\n\n", name)),
+                    1 => src.push_str(&format!("Say {} is Echo\n", name)),
+                    _ => src.push_str(&format!("Say Echo aint {}\n", name)),
+                }
+            }
             _ => {
                 features.push("undefined name error");
                 src.push_str("Put 1 into One\nPut 2 into Two\nPut 3 into Three\nSay Phantom\n");
@@ -280,6 +307,91 @@ pub fn gen_dict_program(t: &mut Tape) -> DictProgram {
         input,
         features,
     }
+}
+
+/// A text with the same layout as `src` (same length, words at the same
+/// offsets with the same lengths) but other content: ASCII words that are
+/// keywords become non-words, other ASCII words become keywords of the same
+/// length where one exists. Parsed (never executed) in the same buffer as the
+/// real program, it probes for state keyed by where text lies rather than by
+/// what it says. `else` is never produced (a stray `else` makes this tree's
+/// parser loop for ever; that is C01's subject).
+pub fn same_shape_decoy(src: &str) -> String {
+    const BY_LEN: &[&[&str]] = &[
+        &[],
+        &[],
+        &["it", "is", "as", "up", "or", "to", "at", "of", "be", "no", "ok"],
+        &["say", "the", "and", "not", "put", "let", "nor", "yes", "are", "big", "low"],
+        &["into", "true", "with", "than", "turn", "roll", "rock", "join", "cast", "give", "down", "back", "null", "gone", "plus", "lies"],
+        &["build", "false", "until", "while", "knock", "break", "round", "wrong", "right", "empty", "minus", "times", "shout"],
+        &["listen", "return", "bigger", "taking", "silent", "nobody", "strong", "little", "scream"],
+        &["whisper", "nothing", "between", "without", "greater", "smaller", "nowhere", "silence"],
+        &["continue", "stronger"],
+        &[],
+        &["mysterious"],
+    ];
+    const KEYWORDS: &[&str] = &[
+        "mysterious", "null", "nothing", "nowhere", "nobody", "gone", "true", "right", "yes", "ok",
+        "false", "wrong", "no", "lies", "empty", "silent", "silence", "it", "he", "she", "him", "her",
+        "they", "them", "ze", "hir", "zie", "zir", "xe", "xem", "ve", "ver", "plus", "minus",
+        "without", "times", "of", "over", "between", "in", "into", "is", "are", "was", "were", "isnt",
+        "aint", "arent", "wasnt", "werent", "says", "said", "higher", "greater", "bigger", "stronger",
+        "lower", "less", "smaller", "weaker", "high", "great", "big", "strong", "low", "little",
+        "small", "weak", "shout", "whisper", "scream", "cut", "split", "shatter", "join", "unite",
+        "cast", "burn", "round", "around", "takes", "wants", "return", "give", "send", "with", "put",
+        "let", "be", "and", "or", "nor", "not", "as", "than", "if", "else", "while", "until", "build",
+        "knock", "up", "down", "say", "listen", "to", "turn", "continue", "break", "take", "top",
+        "rock", "roll", "at", "like", "taking", "back", "a", "an", "the", "my", "your", "our",
+    ];
+    let mut out = String::with_capacity(src.len());
+    let mut word = String::new();
+    let mut n = 0usize;
+    let flush = |word: &mut String, out: &mut String, n: &mut usize| {
+        if word.is_empty() {
+            return;
+        }
+        let lower = word.to_lowercase();
+        if KEYWORDS.contains(&lower.as_str()) {
+            for _ in 0..word.len() {
+                out.push('q');
+            }
+        } else if word.len() < BY_LEN.len() && !BY_LEN[word.len()].is_empty() {
+            let pool = BY_LEN[word.len()];
+            out.push_str(pool[*n % pool.len()]);
+            *n += 1;
+        } else {
+            out.push_str(word);
+        }
+        word.clear();
+    };
+    for c in src.chars() {
+        if c.is_ascii_alphabetic() {
+            word.push(c);
+        } else {
+            flush(&mut word, &mut out, &mut n);
+            out.push(c);
+        }
+    }
+    flush(&mut word, &mut out, &mut n);
+    debug_assert_eq!(out.len(), src.len());
+    out
+}
+
+/// Parses and lints a decoy text in `buf` (results ignored, panics caught);
+/// a generated decoy program is also executed.
+fn run_decoy(buf: &mut String, decoy: &str, execute: bool) {
+    buf.clear();
+    buf.push_str(decoy);
+    let text: &str = buf;
+    let _ = guarded(|| {
+        if let Ok(program) = rrss::frontend::parser::parse(text) {
+            let _ = guarded(|| rrss::linter::standard_linter().run(&program));
+            if execute {
+                let mut out = Vec::new();
+                let _ = rrss::exec::exec_using(&b"decoy line\n"[..], &mut out, &program);
+            }
+        }
+    });
 }
 
 // ------------------------------------------------------------ observation
@@ -389,10 +501,31 @@ fn lint_text(program: &rrss::frontend::ast::Program) -> String {
 /// One observation of (source, input) under a configuration. Returns the
 /// observation and the dictionary-order probe log.
 pub fn observe(source: &str, input: &[u8], cfg: &Config) -> (Obs, Vec<String>, u64) {
+    let mut buf = String::with_capacity(source.len());
+    observe_in(&mut buf, source, None, input, cfg)
+}
+
+/// As `observe`, with the program text placed in the caller's reusable buffer
+/// (so that every run of a scenario reads its text at the same address), and
+/// optionally a decoy text processed first, in the same buffer and on the
+/// same thread as the real run.
+pub fn observe_in(
+    buf: &mut String,
+    source: &str,
+    decoy: Option<(&str, bool)>,
+    input: &[u8],
+    cfg: &Config,
+) -> (Obs, Vec<String>, u64) {
     crate::driver::heartbeat();
     let slot = crate::driver::current_slot();
-    let inner = || -> (Obs, Vec<String>, u64) {
+    let mut inner = || -> (Obs, Vec<String>, u64) {
         crate::driver::adopt_slot(slot);
+        if let Some((d, execute)) = decoy {
+            run_decoy(buf, d, execute);
+        }
+        buf.clear();
+        buf.push_str(source);
+        let source: &str = buf;
         // heap perturbation: junk allocations held across the run
         let mut junk: Vec<Vec<u8>> = Vec::new();
         if cfg.heap_junk != 0 {
@@ -592,8 +725,26 @@ impl Property for C10 {
         let mut base: Option<Obs> = None;
         let mut orders: BTreeSet<String> = BTreeSet::new();
         let mut per_site_orders: BTreeSet<(usize, String)> = BTreeSet::new();
+        // every run of the scenario reads its program text from one reusable
+        // buffer (same address each time); before some runs a decoy is
+        // processed in that buffer on the same thread: a text of the same
+        // layout but other content, or another generated program
+        let same_shape = same_shape_decoy(&source);
+        let other_program = gen_dict_program(tape).source;
+        let mut buf = String::with_capacity(source.len().max(other_program.len()) + 8);
         for (ci, cfg) in configs.iter().enumerate() {
-            let (obs, probe, steps) = observe(&source, &input, cfg);
+            let decoy: Option<(&str, bool)> = match ci % 4 {
+                0 => None,
+                1 | 3 => {
+                    stats.inc("fault.configured.decoy_same_layout_parsed_first");
+                    Some((&same_shape, false))
+                }
+                _ => {
+                    stats.inc("fault.configured.decoy_other_program_run_first");
+                    Some((&other_program, true))
+                }
+            };
+            let (obs, probe, steps) = observe_in(&mut buf, &source, decoy, &input, cfg);
             res.executions += 1;
             res.steps += steps;
             res.digest = hash_combine(res.digest, obs.hash());
@@ -619,7 +770,7 @@ impl Property for C10 {
                             // re-run on this thread with the same hooked seed
                             let mut c2 = cfg.clone();
                             c2.fresh_thread = false;
-                            let (again, _, _) = observe(&source, &input, &c2);
+                            let (again, _, _) = observe_in(&mut buf, &source, decoy, &input, &c2);
                             again == *b
                         };
                         if unhooked_only {
@@ -631,7 +782,7 @@ impl Property for C10 {
                                 "configuration #{} differs from configuration #0 in: {}{}",
                                 ci,
                                 field,
-                                if unhooked_only { " (only on a fresh thread: entropy source outside the hook)" } else { "" }
+                                if unhooked_only { " (only when run on a fresh thread: per-thread state or an entropy source outside the hook)" } else { "" }
                             ),
                             render: J::obj(vec![
                                 ("program", J::s(source.clone())),
